@@ -121,7 +121,7 @@ func Execute(t *testing.T, sc *Scenario, plan *Plan, ch *Chooser, maxSteps int, 
 		var buf []*simrt.Task
 		steps := 0
 		lastFaultStep := 0
-		var lastActive time.Duration
+		var lastActive, idle time.Duration
 		nfaults := 0
 		for res.Infra == "" {
 			synctest.Wait()
@@ -146,6 +146,7 @@ func Execute(t *testing.T, sc *Scenario, plan *Plan, ch *Chooser, maxSteps int, 
 				if live > 0 {
 					tm := time.NewTimer(horizon)
 					woke := false
+					before := s.Now()
 					select {
 					case <-s.Wake():
 						woke = true
@@ -155,6 +156,7 @@ func Execute(t *testing.T, sc *Scenario, plan *Plan, ch *Chooser, maxSteps int, 
 					if woke {
 						continue
 					}
+					idle += s.Now() - before // nothing was pending: this wait is not simulated activity
 				}
 				// nothing can ever happen again without a new environment move
 				if (plan.CancelAtEnd || plan.CancelStep >= 0) && !e.Cancelled.Load() {
@@ -174,7 +176,7 @@ func Execute(t *testing.T, sc *Scenario, plan *Plan, ch *Chooser, maxSteps int, 
 			}
 			i := ch.PickTask(buf)
 			steps++
-			lastActive = s.Now()
+			lastActive = s.Now() - idle
 			s.Release(buf[i])
 		}
 		synctest.Wait()
